@@ -128,6 +128,8 @@ pub fn run_tcp(bin: &PathBuf, tag: &str, file: &[u8], args: &str, extra_lines: &
         .arg(port.to_string())
         .arg("--log")
         .arg("off")
+        // every other run also echoes the messages on the console (-m): what goes over the socket is the same
+        .args(if port % 2 == 1 { vec!["-m"] } else { vec![] })
         .env_remove("RUST_LOG")
         .env("RUST_BACKTRACE", "0")
         .stdin(Stdio::null())
@@ -218,6 +220,7 @@ pub fn run_tcp_dialog(bin: &PathBuf, tag: &str, file: &[u8], pre_lines: &[String
         .arg(port.to_string())
         .arg("--log")
         .arg("off")
+        .args(if port % 2 == 1 { vec!["-m"] } else { vec![] })
         .env_remove("RUST_LOG")
         .env("RUST_BACKTRACE", "0")
         .stdin(Stdio::null())
